@@ -11,7 +11,7 @@ rc=0
 for k in dir und sdir sund; do
   d=$W/$k; mkdir -p $d
   sed "s/^N == 5/N == $N/" /verif/spec/ApaSwapOps.tla > $d/ApaSwapOps.tla
-  sed "s/^Kinds == .*/Kinds == {\"$k\"}/" /verif/spec/ApaSwap.tla > $d/ApaSwap.tla
+  sed "s/^Kinds == .*/Kinds == {\"$k\"}/" /verif/spec/apalache/ApaSwap.tla > $d/ApaSwap.tla
   if [ "$N" = 4 ]; then
     sed -i 's/ + NZ(M\[i\]\[5\])//; s/ + NZ(M\[5\]\[j\])//; s/ + HasSgn(M\[i\]\[5\], s)//; s/ + HasSgn(M\[5\]\[j\], s)//; s/ + M\[i\]\[5\]//; s/Gen(5)/Gen(4)/g; s/Gen(25)/Gen(16)/' $d/ApaSwap.tla
   fi
